@@ -66,5 +66,5 @@ func qMultiReassign(w io.Writer, b []byte) (int, error) {
 	if n, err = w.Write(b); err != nil {
 		return 0, err
 	}
-	return n, nil
+	return n, err
 }
